@@ -453,21 +453,21 @@ func runChild(c storeCfg, driver string, s script) (runOut, string) {
 	if err := os.WriteFile(dir+"/in.json", b, 0o644); err != nil {
 		lib.Inconclusive("child input: %v", err)
 	}
-	cmd := exec.Command(os.Args[0], "-test.run", "^TestChildC02$", "-test.timeout", "120s")
+	cmd := exec.Command(os.Args[0], "-test.run", "^TestChildC02$", "-test.timeout", "600s")
 	cmd.Env = append(os.Environ(), "C02_CHILD_IN="+dir+"/in.json", "C02_CHILD_OUT="+dir+"/out.json", "VERIF_STATS=", "VERIF_REPLAY_OUT=")
 	done := make(chan struct{})
 	var outb []byte
 	go func() { outb, err = cmd.CombinedOutput(); close(done) }()
 	select {
 	case <-done:
-	case <-time.After(150 * time.Second): // watchdog: never a verdict
+	case <-time.After(660 * time.Second): // watchdog: never a verdict
 		_ = cmd.Process.Kill()
-		lib.Inconclusive("child process did not finish in 150s")
+		lib.Inconclusive("child process did not finish in 660s")
 	}
 	var o runOut
 	ob, rerr := os.ReadFile(dir + "/out.json")
 	if rerr != nil || json.Unmarshal(ob, &o) != nil {
-		if bytes.Contains(outb, []byte("VERIF-INCONCLUSIVE")) || !bytes.Contains(outb, []byte("panic")) {
+		if bytes.Contains(outb, []byte("VERIF-INCONCLUSIVE")) || bytes.Contains(outb, []byte("test timed out")) || !bytes.Contains(outb, []byte("panic")) {
 			lib.Inconclusive("child produced no result: %v: %s", err, tail(outb))
 		}
 		return o, "child process crashed: " + tail(outb)
